@@ -5,9 +5,9 @@ Trace == ndJsonDeserialize(IOEnv.VERIF_TRACE)
 VL == INSTANCE VerdictLib
 VARIABLES l, verdicts
 tvars == <<l, verdicts>>
+AddV(vs) == IF VL!Record(vs) THEN verdicts + Len(vs) ELSE verdicts   \* verdicts: a counter; the records live in a TLC register
 A == INSTANCE Address WITH Emit <- FALSE, f <- 0
 Verdict(clause, sig, tid, detail) == [prop |-> "C20", clause |-> clause, sig |-> sig, tid |-> tid, idx |-> l, detail |-> detail]
-AddV(vs) == VL!AddVTo(verdicts, vs)
 Ev(n) == l <= Len(Trace) /\ Trace[l].ev = n
 
 T_Addr == /\ Ev("addr")
@@ -27,10 +27,10 @@ T_Addr == /\ Ev("addr")
              IN verdicts' = AddV(v1 \o v2 \o v3 \o v4)
           /\ l' = l + 1
 T_End == /\ Ev("end")
-         /\ PrintT(<<"VERDICTS", ToJson(verdicts)>>)
+         /\ PrintT(<<"VERDICTS", ToJson(VL!All)>>)
          /\ PrintT(<<"CONSUMED", l>>)
          /\ l' = l + 1 /\ UNCHANGED verdicts
-TraceInit == l = 1 /\ verdicts = <<>>
+TraceInit == l = 1 /\ verdicts = 0 /\ VL!InitV
 TraceNext == T_Addr \/ T_End
 TraceSpec == TraceInit /\ [][TraceNext]_tvars
 =============================================================================
